@@ -1221,6 +1221,7 @@ func (g *Gen) applySiteContract(st *State, v ssa.Value, ct *Contract, sig *types
 
 // bindLocalsForSite exposes the caller's named locals that have a unique SSA value (already computed).
 func (g *Gen) bindLocalsForSite(e *Env, st *State) {
+	e.ownLocals = true
 	byName := map[string][]ssa.Value{}
 	for _, b := range g.fn.Blocks {
 		for _, ins := range b.Instrs {
